@@ -999,7 +999,10 @@ func (sql *SqliteDb) replayChangelog(tree *Tree, toVersion int64, targetHash []b
 			if err != nil {
 				return err
 			}
-			if _, err = tree.Set(node.key, node.hash); err != nil {
+			tree.replayValue = node.value
+			_, err = tree.Set(node.key, node.hash)
+			tree.replayValue = nil
+			if err != nil {
 				return err
 			}
 			if sequence != int(tree.leafSequence) {
